@@ -3,6 +3,7 @@ import enum
 import re
 import warnings
 import inspect
+import itertools
 try:
     import annotationlib # py3.14+
 except ImportError:
@@ -1524,7 +1525,16 @@ def connect(m, *args, **kwargs):
                 f"Cannot connect signature member(s) {sig_member_paths_as_string} with "
                 f"port member(s) {port_member_paths_as_string}")
         if sig_kind:
-            # There are no port members at this point; we're done with this path.
+            # There are no port members at this point; we're done with this path, except that
+            # the contents of the signature members can only be matched up if the members have
+            # the same dimensions.
+            (first_path, first_member), *rest_of_sig_kind = sig_kind
+            for (path, member) in rest_of_sig_kind:
+                if member.dimensions != first_member.dimensions:
+                    raise ConnectionError(
+                        f"Cannot connect the member {_format_path(first_path)} with dimensions "
+                        f"{first_member.dimensions} to the member {_format_path(path)} with "
+                        f"dimensions {member.dimensions}")
             continue
         # There are only port members after this point.
         any_in = any_in or bool(in_kind)
@@ -1633,8 +1643,29 @@ def connect(m, *args, **kwargs):
                         out_path=(*out_path, index), in_path=(*in_path, index),
                         src_loc_at=src_loc_at + 1)
             assert out_member.dimensions == in_member.dimensions
-            connect_dimensions(out_member.dimensions,
-                out_path=out_path, in_path=in_path, src_loc_at=src_loc_at + 1)
+            # The paths above name signature members without indices; a port member nested within
+            # signature members that have dimensions exists once per combination of their indices.
+            def enclosing_dimensions(path):
+                handle, *names = path
+                signature = signatures[handle]
+                result = []
+                for name in names[:-1]:
+                    member = signature.members[name]
+                    result.append(member.dimensions)
+                    signature = member.signature
+                return result
+            def with_indices(path, indices):
+                handle, *names = path
+                result = [handle]
+                for name, index in zip(names, (*indices, ())):
+                    result += [name, *index]
+                return tuple(result)
+            for indices in itertools.product(*(
+                    itertools.product(*(range(dimension) for dimension in dimensions))
+                    for dimensions in enclosing_dimensions(out_path))):
+                connect_dimensions(out_member.dimensions,
+                    out_path=with_indices(out_path, indices),
+                    in_path=with_indices(in_path, indices), src_loc_at=src_loc_at + 1)
 
     # If no connections were made, and there were inputs but no outputs in the
     # signatures, issue a diagnostic as this is most likely in error.
